@@ -7,12 +7,13 @@ PROP = dict(
                     "in the thorough tier) through HandleReader, HandleReadWriter and the HTTP transport; every output is checked against "
                     "the response grammar and against the outcomes a reference model allows; batches also under -race with pool sizes 1 and 8. "
                     "Samples the input space, does not prove absence. The native fuzzer runs without coverage guidance (the driver builds "
-                    "the test binary without -fuzz instrumentation), i.e. as a mutation fuzzer over a 96-entry seed corpus."),
-        rule=("rapid grammar: each envelope member valid/missing/ill-typed, 17 harness methods covering every handler shape the server "
+                    "the test binary without -fuzz instrumentation), i.e. as a mutation fuzzer over a 120-entry seed corpus."),
+        rule=("rapid grammar: each envelope member valid/missing/ill-typed, 21 harness methods covering every handler shape the server "
               "accepts (no params, required only, optional tail, all optional, context first, validated struct / *struct / []struct / "
-              "map[string]*struct, json.RawMessage, 2- and 3-tuple returns, handler error, internal error, nil / zero-valued results, "
+              "map[string]*struct / map[string]struct, optional by-value validated struct, struct with a 'required' tag, a value type whose "
+              "UnmarshalJSON rejects null, json.RawMessage, 2- and 3-tuple returns, handler error, internal error, nil / zero-valued results, "
               "escaped method name), params good/omitted/too few/too many/unknown name/missing required/ill-typed/validator failure/"
-              "scalar/null by position or by name, ids of every JSON type, batches of 0-30 (race: 1-40, up to 4 concurrent) entries, "
+              "scalar/null, an explicit null for any one parameter (every parameter kind), by position or by name, ids of every JSON type, batches of 0-30 (race: 1-40, up to 4 concurrent) entries, "
               "nested arrays, duplicate/extra members, leading whitespace up to 5000 bytes, trailing bytes, byte-level damage. "
               "Non-trivial = the input is valid JSON containing >= 1 well-formed request object (dispatcher reached); mixed-batch = "
               ">= 3 entries of >= 2 classes; distinct = SHA-256 of transport + input bytes."),
@@ -23,8 +24,11 @@ PROP = dict(
                      "\"params\": null may be processed or rejected as Invalid Request; bytes after the first document may be ignored or "
                      "rejected with -32700; empty input may be answered -32700 or not at all",
                      "inputs whose meaning JSON/JSON-RPC does not define (differing duplicate member names, member names differing only by "
-                     "case, invalid UTF-8, null or integer-valued floats for non-nullable Go parameters, unknown struct fields) are checked "
+                     "case, invalid UTF-8, integer-valued float literals for int parameters, unknown struct fields) are checked "
                      "against the response grammar only",
+                     "an explicit null argument is what the caller supplied and is decoded by encoding/json's documented rules: nil for "
+                     "pointer/slice/map/RawMessage, the zero value for plain value types (handler invoked), -32602 when the type's "
+                     "UnmarshalJSON refuses null or when the resulting zero struct violates its validator tags",
                      "error messages and error.data of server-generated errors are not compared"],
         runs=[dict(run="^Test(Prop|Known)"), dict(run="^TestRace", race=True),
               dict(run="^$", fuzz="FuzzHandleReader", fuzztime="120s")],
